@@ -368,6 +368,10 @@ type Detail struct {
 type End struct {
 	Code    int
 	CodeStr string // the literal the peer sent when it is not a plain in-range number/name
+	// DetailsCodeSet: (encoding a gRPC status) the google.rpc.Status in grpc-status-details-bin
+	// carries DetailsCode instead of Code.
+	DetailsCodeSet bool
+	DetailsCode    int32
 	Message string
 	Details []Detail
 }
@@ -1029,7 +1033,11 @@ func grpcStatusHeaders(e *End, into http.Header) {
 		into.Set("Grpc-Message", GRPCPercentEncode(e.Message))
 	}
 	if len(e.Details) > 0 {
-		b, _ := proto.Marshal(StatusProto(e))
+		st := StatusProto(e)
+		if e.DetailsCodeSet {
+			st.Code = e.DetailsCode // a status in the details that disagrees with grpc-status
+		}
+		b, _ := proto.Marshal(st)
 		into.Set("Grpc-Status-Details-Bin", base64.RawStdEncoding.EncodeToString(b))
 	}
 }
